@@ -153,7 +153,9 @@ fn gen_tl(rng: &mut Rng, allow_default_body: bool) -> Tl {
         None
     };
     let back = easing.map(|e| e >= 26).unwrap_or(false);
-    let n_kfs = rng.range(1, 4) as usize;
+    // (an arm may consist of timing arguments only: a timeline without keyframes still counts
+    // as animated for pause/resume and has a duration)
+    let n_kfs = if rng.chance(0.1) { 0 } else { rng.range(1, 4) as usize };
     let mut kfs: Vec<Kf> = Vec::new();
     let mut used: Vec<u32> = Vec::new(); // positions in 1/1000 to keep them distinct
     for _ in 0..n_kfs {
@@ -402,6 +404,9 @@ fn gen_animator(rng: &mut Rng) -> Animator {
             }
             if t.duration.is_none() {
                 features.push("no-duration");
+            }
+            if t.kfs.is_empty() {
+                features.push("no-keyframes");
             }
             if t.delay.is_some() {
                 features.push("after");
